@@ -1,5 +1,7 @@
 pub mod canon;
 pub mod doc;
+pub mod dsl;
+pub mod scenario;
 pub mod event;
 pub mod prng;
 pub mod props;
@@ -11,6 +13,7 @@ pub fn exec_case(case: &Value) -> Value {
     let op = case["op"].as_str().unwrap_or("");
     match op {
         "admits" => props::c05::exec(case),
+        "scenario" => scenario::exec(case),
         _ => serde_json::json!({ "error": format!("unknown op {op}") }),
     }
 }
@@ -18,6 +21,7 @@ pub fn exec_case(case: &Value) -> Value {
 pub fn gen_cases(prop: &str, tier: &str, seed: u64, out: &mut dyn FnMut(Value)) -> Result<(), String> {
     match prop {
         "C05" => props::c05::gen(tier, seed, out),
+        "C03" => props::c03::gen(tier, seed, out),
         _ => return Err(format!("no generator for {prop}")),
     }
     Ok(())
